@@ -47,6 +47,7 @@ def instances(tier):
         out.append({"kind": "request", "call": c})
     out.append({"kind": "handshake_extra"})
     out.append({"kind": "zone_order"})
+    out.append({"kind": "zone_order", "old_format": True})       # AT4 ability record without group bitmap; names listed out of order
     return out
 
 
@@ -325,14 +326,18 @@ def _zone_order(ctx, p):
     same sequence of zones (and the AirTouch the same sequence of air-conditioners) over both generations."""
     start = ctx.choice("start", 14)
     count = 2 + ctx.choice("count", 2)
+    old = bool(p.get("old_format"))
+    if old:
+        start = 0                     # a single AC of an old console owns all groups
+    rot = ctx.choice("listing", 3) if old else 0       # the console lists its zone names starting at this position
     seqs = {}
     for gen in (4, 5):
         g = Gen(gen)
         inst = Installation(gen)
         nums = list(range(start, start + count))
         inst.acs.append({"number": 0, "name": "Unit", "start": start, "count": count, "mode_bits": 0b11111, "fan_bits": 0b1111111,
-                         "limits": (16, 30) if gen == 4 else (16, 30, 16, 30), "group_bits": sum(1 << n for n in nums) if gen == 4 else None})
-        for n in nums:
+                         "limits": (16, 30) if gen == 4 else (16, 30, 16, 30), "group_bits": (sum(1 << n for n in nums) if (gen == 4 and not old) else None)})
+        for n in nums[rot:] + nums[:rot]:
             inst.zones[n] = f"Z{n}"
             inst.zone_status[n] = (r4.build_group_status(n, 1, 1, 100, 0, 1, 22, 1, 730, 0) if gen == 4 else r5.build_zone_status(n, 1, 1, 100, 120, 1, 730, 0, 0))
         inst.ac_status[0] = (r4.build_ac_status(0, 1, 4, 2, 0, 0, 22, 740, 0) if gen == 4 else r5.build_ac_status(0, 1, 4, 2, 120, 0, 0, 0, 0, 740, 0))
